@@ -125,6 +125,24 @@ func c09Run(r *ev.Run, shardI, shardN int) scopeReport {
 			}
 		}
 	}
+	// far away: "by any amount" - kilometres, beyond what the fixed-point form can hold (~9.2e8), no-data values of other
+	// formats (largest float32 / float64) and infinity, beyond each border, every vertex position of shell and hole
+	for _, g := range c09Grids() {
+		for _, border := range []string{"left", "bottom", "right", "top"} {
+			for _, m := range []float64{1e3, 1e6, 4e8, 5e8, 1e9, 1e10, 1e15, 1e300, math.MaxFloat32, math.MaxFloat64, math.Inf(1)} {
+				for ringNo := 0; ringNo < 2; ringNo++ {
+					for idx := 0; idx < 4-ringNo; idx++ {
+						n++
+						if n%shardN != shardI {
+							continue
+						}
+						rep.States++
+						c09Far(r, &rep, g, border, m, ringNo, idx)
+					}
+				}
+			}
+		}
+	}
 	// pairs: the outside vertex together with a second vertex ANYWHERE in the grid (a polygon may span the whole grid, so
 	// whatever is remembered about earlier vertices must not excuse a later one): on the 16x16-pixel grids every in-grid
 	// pixel x every pixel of the two-pixel frame around the grid x every position of the outside vertex in the ring
@@ -151,7 +169,7 @@ func c09Run(r *ev.Run, shardI, shardN int) scopeReport {
 			}
 		}
 	}
-	rep.Bound = "per 16x16-pixel grid: every in-grid pixel x every pixel of the two-pixel frame around the grid (144) as two vertices of a triangle (third vertex fixed), outside vertex at every ring position, as shell and as hole; per grid: 4 corners x 35 pairs of distances from the two borders (1 unit inside, 1 unit, pixel-1, pixel, pixel+1, 3 pixels outside) x every vertex position of shell and hole; and per grid: 4 borders x 42 distances (1, 2^1..2^36, pixel-1, pixel, pixel+1, 3 pixels, extent; in 1e-10 units) x {outside, inside} x every vertex position of shell (4) and hole (3) x both values of ignore-outside-grid"
+	rep.Bound = "per grid: 4 borders x 11 far distances (1e3 .. 1e300 CRS units, largest float32/float64, infinity) x every vertex position; per 16x16-pixel grid: every in-grid pixel x every pixel of the two-pixel frame around the grid (144) as two vertices of a triangle (third vertex fixed), outside vertex at every ring position, as shell and as hole; per grid: 4 corners x 35 pairs of distances from the two borders (1 unit inside, 1 unit, pixel-1, pixel, pixel+1, 3 pixels outside) x every vertex position of shell and hole; and per grid: 4 borders x 42 distances (1, 2^1..2^36, pixel-1, pixel, pixel+1, 3 pixels, extent; in 1e-10 units) x {outside, inside} x every vertex position of shell (4) and hole (3) x both values of ignore-outside-grid"
 	rep.Inputs = rep.States
 	rep.States++
 	rep.WallS = time.Since(t0).Seconds()
@@ -252,6 +270,28 @@ func c09Two(r *ev.Run, rep *scopeReport, g c09Grid, border string, dist int64, b
 			c09Judge(r, rep, g, border, dist, ringNo, idx, poly, outside, ids, keep)
 		}
 	}
+}
+
+// c09Far: the base polygon of c09Two in the middle of the grid with one vertex moved m CRS units beyond a border
+func c09Far(r *ev.Run, rep *scopeReport, g c09Grid, border string, m float64, ringNo, idx int) {
+	px := g.Pixel
+	f := func(u int64) float64 { return float64(u) / math.Pow(10, 10) }
+	x0, y0 := (g.MinX+g.MaxX)/2, (g.MinY+g.MaxY)/2
+	shell := [][2]float64{{f(x0), f(y0)}, {f(x0 + 6*px), f(y0)}, {f(x0 + 6*px), f(y0 + 6*px)}, {f(x0), f(y0 + 6*px)}}
+	hole := [][2]float64{{f(x0 + 2*px), f(y0 + 2*px)}, {f(x0 + 2*px), f(y0 + 4*px)}, {f(x0 + 4*px), f(y0 + 2*px)}}
+	poly := geom.Polygon{shell, hole}
+	switch border {
+	case "left":
+		poly[ringNo][idx][0] = f(g.MinX) - m
+	case "right":
+		poly[ringNo][idx][0] = f(g.MaxX) + m
+	case "bottom":
+		poly[ringNo][idx][1] = f(g.MinY) - m
+	case "top":
+		poly[ringNo][idx][1] = f(g.MaxY) + m
+	}
+	rep.Nontrivial++
+	c09Judge(r, rep, g, "far-"+border, 2*px, ringNo, idx, poly, true, []int{g.ID}, false)
 }
 
 // c09Pair: triangle over an in-grid pixel p, an outside pixel q of the frame and a fixed in-grid vertex; every rotation; as
